@@ -164,7 +164,15 @@ def dumpAddr (s : State) (e : Env) (a : Nat) : String :=
     | none => "none"
     | some r => s!"{r.first}-{r.last}"
   let base := s!"a{a}:range={range} conf={s.confirmed a} bl={b2s (s.blacklist a)} cl={b2s (s.claimed a)} win={showNats (viewWinningIds s a)} tix={showRes (ticketsFor s a)}"
-  let g := if s.variant.hasGuaranteed then s!" uts={showUts v2 (s.uts a)} bluts={showUts v2 (s.blUts a)}" else ""
+  let utsView := match s.uts a with
+    | none => "user"      -- the view rejects unknown users ("User not found")
+    | some u =>
+      if v2 then s!"{u.a}:" ++ showList (u.infos.map (fun (p : Nat × Nat) => s!"{p.1}/{p.2}"))
+      else s!"{u.a}:{u.b}:{s.confirmed a}:{u.c}:{u.d}"
+  let hasView := s.variant == .guarV1 || s.variant == .guarV2 || s.variant == .migration
+  let g := if s.variant.hasGuaranteed then
+      s!" uts={showUts v2 (s.uts a)} bluts={showUts v2 (s.blUts a)}" ++ (if hasView then s!" utsview={utsView}" else "")
+    else ""
   let vst := if s.variant.vested then
       let c := if v2 then claimable2 s e a else claimable1 s e a
       s!" ut={s.userTotal a} uc={s.userClaimed a} claimable={showRes c}"
@@ -180,7 +188,7 @@ def dumpState (s : State) (e : Env) (bound : Nat) (addrs : List Nat) : String :=
   let f := s.flags
   let globals := s!"flags={b2s f.started}{b2s f.filtered}{b2s f.selected}{b2s f.additional} cfg={s.cfg.conf},{s.cfg.sel},{s.cfg.claim} price={s.payTok.code}:{s.price} per={s.perTicket} nrw={s.nrWinning} last={s.lastTicketId} dep={b2s s.deposited} tdep={s.totalDeposited} cpay={s.claimablePayment} sup={s.support} paused={b2s s.paused} op={showOp s.op}"
   let bals := " bal=" ++ showList ((List.range 6).map (fun c => s!"{c}:{s.bal (tokOf c) 0}"))
-  let st := " status=" ++ showNats (idsWhere s.status bound)
+  let st := " views=ok status=" ++ showNats (idsWhere s.status bound)
   let p2i := " p2i=" ++ showList ((idsWhere (fun p => s.posToId p != 0) bound).map (fun p => s!"{p}>{s.posToId p}"))
   let batches := " batch=" ++ showList (((List.range (bound + 1)).filterMap (fun i => (s.batch i).map (fun b => s!"{i}>{b.addr}x{b.n}"))))
   let g := if s.variant.hasGuaranteed then s!" wl={showNats s.whitelist} tg={s.totalGuaranteed} minc={s.minConfirmed}" else ""
